@@ -55,15 +55,16 @@ End FoldPerm.
 
 (* ------------------------------------------------------------------------------------------------ *)
 (* 2. cells                                                                                          *)
-Definition oeq (p p' : option (list name)) : Prop := forall x, In x (default [] p) <-> In x (default [] p').
+(* the lists kept next to the module (primary keys, mixins) are compared up to their order *)
+Definition oeq (p p' : option (list name)) : Prop := Permutation (default [] p) (default [] p').
 Definition Req (s s' : state) : Prop := fst s = fst s' /\ forall k, oeq (snd s !! k) (snd s' !! k).
 
 Global Instance oeq_equiv : Equivalence oeq.
 Proof.
   split.
-  - intros p x; reflexivity.
-  - intros p q H x; symmetry; apply H.
-  - intros p q r H1 H2 x; etransitivity; [apply H1|apply H2].
+  - intros p; unfold oeq; reflexivity.
+  - intros p q H; unfold oeq in *; symmetry; exact H.
+  - intros p q r H1 H2; unfold oeq in *; etransitivity; eassumption.
 Qed.
 Global Instance Req_equiv : Equivalence Req.
 Proof.
@@ -152,61 +153,96 @@ Proof.
        |try reflexivity; try (apply partial_alter_commute; congruence)]).
 Qed.
 
+(* two operations on the same cell, one after the other, are one operation *)
+Definition seq_g (g1 g2 : option typeent -> option (list name) -> option typeent * option (list name)) :=
+  fun t p => let r1 := g1 t p in g2 (fst r1) (snd r1).
+
+Lemma apply_seq_type an n g1 g2 s :
+  apply_op an (OType n g2) (apply_op an (OType n g1) s) = apply_op an (OType n (seq_g g1 g2)) s.
+Proof.
+  destruct s as [m p]. unfold apply_op; cbn [fst snd].
+  rewrite cur_app_insert; cbn [a_long a_attrs a_types a_eps].
+  rewrite !lookup_partial_alter, insert_insert.
+  unfold seq_g. cbn zeta.
+  rewrite <- !partial_alter_compose. reflexivity.
+Qed.
+
+Lemma apply_ext_type an n g g' s :
+  (forall t p, fst (g t p) = fst (g' t p) /\ oeq (snd (g t p)) (snd (g' t p))) ->
+  Req (apply_op an (OType n g) s) (apply_op an (OType n g') s).
+Proof.
+  intros H. destruct s as [m p]. unfold apply_op; cbn [fst snd].
+  destruct (H (a_types (cur_app m an) !! n) (p !! (an, n))) as [H1 H2].
+  split; cbn [fst snd]; [rewrite H1; reflexivity|].
+  intros k. destruct (decide (k = (an, n))) as [->|Hne].
+  - rewrite !lookup_partial_alter. exact H2.
+  - rewrite !lookup_partial_alter_ne by congruence. reflexivity.
+Qed.
+
+Lemma apply_seq_ep an k e1 e2 s :
+  apply_op an (OEp k e2) (apply_op an (OEp k e1) s) = apply_op an (OEp k (fun e0 => e2 (e1 e0))) s.
+Proof.
+  destruct s as [m p]. unfold apply_op; cbn [fst snd].
+  rewrite cur_app_insert; cbn [a_long a_attrs a_types a_eps]. rewrite insert_insert.
+  rewrite <- partial_alter_compose. reflexivity.
+Qed.
+
+Lemma apply_ext_ep an k e e' s : (forall e0, e e0 = e' e0) -> apply_op an (OEp k e) s = apply_op an (OEp k e') s.
+Proof.
+  intros H. destruct s as [m p]. unfold apply_op; cbn [fst snd].
+  f_equal. f_equal. f_equal. apply partial_alter_ext. intros x _. apply H.
+Qed.
+
+Lemma apply_seq_head an h1 h2 s :
+  apply_op an (OHead h2) (apply_op an (OHead h1) s)
+  = apply_op an (OHead (fun l a => let r := h1 l a in h2 (fst r) (snd r))) s.
+Proof.
+  destruct s as [m p]. unfold apply_op; cbn [fst snd].
+  rewrite cur_app_insert; cbn [a_long a_attrs a_types a_eps]. rewrite insert_insert. reflexivity.
+Qed.
+
+Lemma apply_ext_head an h h' s : (forall l a, h l a = h' l a) -> apply_op an (OHead h) s = apply_op an (OHead h') s.
+Proof. intros H. destruct s as [m p]. unfold apply_op; cbn [fst snd]. rewrite H. reflexivity. Qed.
+
 (* ------------------------------------------------------------------------------------------------ *)
 (* 3. the listener's steps as cell operations                                                        *)
 Inductive xatom :=
 | XHead (an : appname) (long : option name) (a : list entry)
-| XType (an : appname) (table : bool) (n : name) (a : list entry) (fs : list fielddecl)
-| XEnum (an : appname) (n : name) (a : list entry) (items : list (name * Z))
-| XEp (an : appname) (n : name) (a : list entry) (body : list stmt)
-| XEvent (an : appname) (n : name) (body : list stmt)
-| XMeth (an : appname) (x : epkey * list entry * list stmt)
+| XAnno (an : appname) (x : anno)
+| XType (an : appname) (table : bool) (n : name) (a : list entry) (annos : list anno) (fs : list fielddecl)
+| XRepl (an : appname) (n : name) (t : option typeent)
+| XEp (an : appname) (n : name) (a : list entry) (annos : list anno) (params : list name) (body : list stmt)
+| XEvent (an : appname) (n : name) (params : list name) (body : list stmt)
+| XMeth (an : appname) (x : epkey * list name * methoddecl)
+| XSub (an : appname) (key : name) (pub : appname) (a : list entry) (annos : list anno) (body : list stmt)
+| XSubCall (pub : appname) (evt : name) (caller : appname) (key : name)
+| XMixin (an : appname) (x : name)
 | XDots (an : appname).
 
 Definition x_app (x : xatom) : appname :=
   match x with
-  | XHead an _ _ | XType an _ _ _ _ | XEnum an _ _ _ | XEp an _ _ _ | XEvent an _ _ | XMeth an _ | XDots an => an
+  | XHead an _ _ | XAnno an _ | XType an _ _ _ _ _ | XRepl an _ _ | XEp an _ _ _ _ _ | XEvent an _ _ _
+  | XMeth an _ | XSub an _ _ _ _ _ | XSubCall an _ _ _ | XMixin an _ | XDots an => an
   end.
 
-Definition insert_fields (fs : list fielddecl) (fs0 : gmap name field) : gmap name field :=
-  fold_left (fun m fd => <[fd_name fd := mk_field fd]> m) fs fs0.
-Definition tattrs_step (a : list entry) (a0 : attrs) : attrs :=
-  match a with [] => a0 | _ => merge_tattrs (make_attrs a) a0 end.
-
-Definition type_g (mode : pkmode) (table : bool) (a : list entry) (fs : list fielddecl)
-    (t : option typeent) (p : option (list name)) : option typeent * option (list name) :=
-  match default (TRec table ∅ ∅) t with
-  | TRec rel a0 fs0 =>
-      let fs1 := insert_fields fs fs0 in
-      (Some (TRec rel (tattrs_step a a0) fs1), if rel then pk_update mode p (key_fields fs fs1) else p)
-  | TEnum a0 items => (Some (TEnum (tattrs_step a a0) items), p)
-  end.
+Definition repl_g (t : option typeent) (t0 : option typeent) (p : option (list name)) :=
+  match t with None => (t0, p) | Some t' => (Some t', None) end.
+Definition mixin_g (x : name) (t0 : option typeent) (p : option (list name)) : option typeent * option (list name) :=
+  (t0, Some (default [] p ++ [x])).
 
 Definition x_op (mode : pkmode) (x : xatom) : cellop :=
   match x with
-  | XHead _ long a =>
-      OHead (fun l at0 => (match long with Some y => Some y | None => l end,
-                           match a with [] => at0 | _ => merge_attrs (make_attrs a) at0 end))
-  | XType _ table n a fs => OType n (type_g mode table a fs)
-  | XEnum _ n a items =>
-      OType n (fun t p => match items with
-                          | [] => (t, p)
-                          | _ => (Some (TEnum (make_attrs a) (fold_left (fun m it => <[fst it := snd it]> m) items ∅)), None)
-                          end)
-  | XEp _ n a body =>
-      OEp (None, [n]) (fun e0 => let e := default (Ep false false ∅ []) e0 in
-             Some (Ep (e_pubsub e) (e_rest e)
-                      (match a with [] => e_attrs e | _ => merge_attrs (make_attrs a) (e_attrs e) end)
-                      (e_stmts e ++ body)))
-  | XEvent _ n body =>
-      OEp (None, [n]) (fun e0 => let e := default (Ep true false ∅ []) e0 in
-             Some (Ep (e_pubsub e) (e_rest e) (e_attrs e) (e_stmts e ++ body)))
-  | XMeth _ (k, a, body) =>
-      OEp k (fun e0 => let e := default (Ep false true ∅ []) e0 in
-             Some (Ep (e_pubsub e) (e_rest e)
-                      (merge_attrs (merge_attrs (make_attrs a) {[ patterns_key := VA [rest_tag] ]}) (e_attrs e))
-                      (e_stmts e ++ body)))
-  | XDots _ => OEp (None, [dots_name]) (fun _ => Some (Ep false false ∅ []))
+  | XHead _ long a => OHead (head_f long a)
+  | XAnno _ x => OHead (fun l at0 => (l, anno_step x at0))
+  | XType _ table n a annos fs => OType n (type_g mode table a annos fs)
+  | XRepl _ n t => OType n (repl_g t)
+  | XEp _ n a annos params body => OEp (None, [n]) (ep_f a annos params body)
+  | XEvent _ n params body => OEp (None, [n]) (event_f params body)
+  | XMeth _ (k, u, m) => OEp k (method_f u m)
+  | XSub _ key pub a annos body => OEp (None, [key]) (sub_f pub a annos body)
+  | XSubCall _ evt caller key => OEp (None, [evt]) (subcall_f caller key)
+  | XMixin _ x => OType mixin_key (mixin_g x)
+  | XDots _ => OEp (None, [dots_name]) (fun _ => Some (new_ep false false))
   end.
 
 Definition xstep (mode : pkmode) (s : state) (x : xatom) : state := apply_op (x_app x) (x_op mode x) s.
@@ -214,11 +250,16 @@ Definition xstep (mode : pkmode) (s : state) (x : xatom) : state := apply_op (x_
 Definition micro (x : atom) : list xatom :=
   match x with
   | AHead an long a => [XHead an long a]
-  | AMem an (MT table n a fs) => [XType an table n a fs]
-  | AMem an (ME n a items) => [XEnum an n a items]
-  | AMem an (MP n a body) => [XEp an n a body]
-  | AMem an (MV n body) => [XEvent an n body]
-  | AMem an (MR r) => XHead an None [] :: map (XMeth an) (rest_eps [] r)
+  | AMem an (MT table n a annos fs) => [XType an table n a annos fs]
+  | AMem an (ME n a annos items) => [XRepl an n (enum_ent a annos items)]
+  | AMem an (MAl n a annos ty) => [XRepl an n (alias_ent a annos ty)]
+  | AMem an (MU n a alts) => [XRepl an n (union_ent a alts)]
+  | AMem an (MP n a annos params body) => [XEp an n a annos params body]
+  | AMem an (MV n params body) => [XEvent an n params body]
+  | AMem an (MR r) => XHead an None [] :: map (XMeth an) (rest_eps [] [] r)
+  | AMem an (MX x) => [XMixin an x]
+  | AMem an (MS key pub evt a annos body) => [XSub an key pub a annos body; XSubCall pub evt an key]
+  | AMem an (MA x) => [XAnno an x]
   | AMem an MW => [XDots an]
   end.
 
@@ -229,48 +270,41 @@ Lemma meth_fold mode an l : forall ap m p,
   fold_left (xstep mode) (map (XMeth an) l) (<[an := ap]> m, p)
   = (<[an := fold_left (fun ap x => method_step x ap) l ap]> m, p).
 Proof.
-  induction l as [|[[k a] body] l IH]; intros ap m p; cbn [map fold_left]; [reflexivity|].
+  induction l as [|[[k u] md] l IH]; intros ap m p; cbn [map fold_left]; [reflexivity|].
   unfold xstep at 2, apply_op; cbn [x_app x_op fst snd].
-  rewrite cur_app_insert, insert_insert. rewrite IH. f_equal. f_equal. f_equal.
-  unfold method_step. f_equal.
-  unfold insert, map_insert. apply partial_alter_ext. intros x <-.
-  destruct (a_eps ap !! k); reflexivity.
+  rewrite cur_app_insert, insert_insert. rewrite IH. reflexivity.
+Qed.
+
+Lemma repl_step_op an n t m p :
+  (<[an := fst (repl_step an n t (cur_app m an) p)]> m, snd (repl_step an n t (cur_app m an) p))
+  = apply_op an (OType n (repl_g t)) (m, p).
+Proof.
+  unfold repl_step, apply_op, repl_g; cbn [fst snd]. destruct t as [t'|]; cbn [fst snd].
+  - reflexivity.
+  - rewrite !partial_alter_self, app_eta. reflexivity.
 Qed.
 
 Lemma step_micro mode s x : step mode s x = fold_left (xstep mode) (micro x) s.
 Proof.
   destruct s as [m p]. destruct x as [an long a|an mem]; [reflexivity|].
-  destruct mem as [table n a fs|n a items|n a body|n body|r|]; cbn [micro fold_left].
-  - (* table *)
-    unfold step, member_step, table_step, xstep, apply_op; cbn [x_app x_op fst snd].
-    unfold type_g, insert_fields, tattrs_step.
-    destruct (a_types (cur_app m an) !! n) as [[rel a0 fs0|a0 items]|] eqn:E;
-      cbn [default from_option id fst snd].
-    + destruct rel; cbn [fst snd].
-      * f_equal. apply partial_alter_ext. intros x <-. reflexivity.
-      * rewrite partial_alter_self. reflexivity.
-    + cbn [fst snd]. rewrite partial_alter_self. reflexivity.
-    + destruct table; cbn [fst snd].
-      * f_equal. apply partial_alter_ext. intros x <-. reflexivity.
-      * rewrite partial_alter_self. reflexivity.
-  - (* enum *)
-    unfold step, member_step, enum_step, xstep, apply_op; cbn [x_app x_op fst snd].
-    destruct items as [|it items]; cbn [fst snd].
-    + rewrite !partial_alter_self, app_eta. reflexivity.
-    + reflexivity.
-  - (* simple endpoint *)
-    unfold step, member_step, ep_step, xstep, apply_op; cbn [x_app x_op fst snd].
-    f_equal. f_equal. f_equal.
-    unfold insert, map_insert. apply partial_alter_ext. intros x <-.
-    destruct (a_eps (cur_app m an) !! (None, [n])); reflexivity.
-  - unfold step, member_step, event_step, xstep, apply_op; cbn [x_app x_op fst snd].
-    f_equal. f_equal. f_equal.
-    unfold insert, map_insert. apply partial_alter_ext. intros x <-.
-    destruct (a_eps (cur_app m an) !! (None, [n])); reflexivity.
+  destruct mem as [table n a annos fs|n a annos items|n a annos ty|n a alts|n a annos params body|n params body|r|x
+                  |key pub evt a annos body|x|]; cbn [micro fold_left].
+  - reflexivity.
+  - unfold step, member_step; cbn [fst snd]. apply repl_step_op.
+  - unfold step, member_step; cbn [fst snd]. apply repl_step_op.
+  - unfold step, member_step; cbn [fst snd]. apply repl_step_op.
+  - reflexivity.
+  - reflexivity.
   - (* REST tree *)
     unfold step, member_step; cbn [fst snd].
-    unfold xstep at 2, apply_op; cbn [x_app x_op fst snd]. rewrite app_eta.
+    unfold xstep at 2, apply_op; cbn [x_app x_op head_f hattrs_step fst snd]. rewrite app_eta.
     rewrite meth_fold. reflexivity.
+  - (* mixin *)
+    unfold step, member_step, xstep, apply_op; cbn [x_app x_op fst snd]. unfold mixin_g; cbn [fst snd].
+    rewrite partial_alter_self, app_eta. f_equal.
+    apply partial_alter_ext. intros y <-. reflexivity.
+  - reflexivity.
+  - reflexivity.
   - reflexivity.
 Qed.
 
@@ -286,14 +320,20 @@ Qed.
 
 Lemma denote_atoms_content mode l : denote_atoms mode l = fold_left (xstep mode) (content l) (∅, ∅).
 Proof. unfold denote_atoms, content. apply fold_left_flat_map. intros; apply step_micro. Qed.
-
 (* ------------------------------------------------------------------------------------------------ *)
-(* 4. primary-key bookkeeping and the two facts about shares of one type                             *)
+(* 4. bookkeeping: key lists, fields, attributes; the facts about two shares of one type             *)
 Lemma in_names_In x l : in_names x l = true <-> In x l.
 Proof.
   unfold in_names. rewrite existsb_exists. split.
   - intros [y [Hy He]]. apply Pos.eqb_eq in He. subst. exact Hy.
   - intros H. exists x. split; [exact H|apply Pos.eqb_refl].
+Qed.
+
+Lemma in_names_perm x l l' : Permutation l l' -> in_names x l = in_names x l'.
+Proof.
+  intros H. destruct (in_names x l) eqn:E, (in_names x l') eqn:E'; try reflexivity.
+  - apply in_names_In in E. apply (Permutation_in _ H) in E. apply in_names_In in E. congruence.
+  - apply in_names_In in E'. apply (Permutation_in _ (Permutation_sym H)) in E'. apply in_names_In in E'. congruence.
 Qed.
 
 Lemma pk_union_prefix new : forall old, exists l, pk_union old new = old ++ l.
@@ -320,6 +360,43 @@ Proof. unfold pk_union. apply fold_left_app. Qed.
 Lemma pk_union_nil_inv old new : pk_union old new = [] -> old = [].
 Proof. destruct (pk_union_prefix new old) as [l ->]. intros H. apply app_eq_nil in H. tauto. Qed.
 
+Lemma pk_add_perm p p' x : Permutation p p' -> Permutation (pk_add p x) (pk_add p' x).
+Proof.
+  intros H. unfold pk_add. rewrite (in_names_perm x p p' H). destruct (in_names x p'); [exact H|].
+  apply Permutation_app; [exact H|reflexivity].
+Qed.
+
+Lemma pk_add_swap p x y : Permutation (pk_add (pk_add p x) y) (pk_add (pk_add p y) x).
+Proof.
+  unfold pk_add.
+  destruct (in_names x p) eqn:Ex, (in_names y p) eqn:Ey; rewrite ?Ex, ?Ey; try reflexivity.
+  - assert (E : in_names x (p ++ [y]) = true) by (apply in_names_In, in_or_app; left; apply in_names_In, Ex).
+    rewrite E. reflexivity.
+  - assert (E : in_names y (p ++ [x]) = true) by (apply in_names_In, in_or_app; left; apply in_names_In, Ey).
+    rewrite E. reflexivity.
+  - destruct (Pos.eq_dec x y) as [->|Hne].
+    + reflexivity.
+    + assert (E1 : in_names y (p ++ [x]) = false).
+      { destruct (in_names y (p ++ [x])) eqn:E; [|reflexivity]. apply in_names_In, in_app_or in E.
+        destruct E as [E|[E|[]]]; [apply in_names_In in E; congruence|congruence]. }
+      assert (E2 : in_names x (p ++ [y]) = false).
+      { destruct (in_names x (p ++ [y])) eqn:E; [|reflexivity]. apply in_names_In, in_app_or in E.
+        destruct E as [E|[E|[]]]; [apply in_names_In in E; congruence|congruence]. }
+      rewrite E1, E2, <- !app_assoc. apply Permutation_app; [reflexivity|apply perm_swap].
+Qed.
+
+Lemma pk_union_perm l l' : Permutation l l' -> forall p p', Permutation p p' -> Permutation (pk_union p l) (pk_union p' l').
+Proof.
+  unfold pk_union.
+  induction 1 as [|x l l' Hp IH|x y l|l l' l'' _ IH1 _ IH2]; intros p p' H; cbn.
+  - exact H.
+  - apply IH, pk_add_perm, H.
+  - assert (Hl : forall q q', Permutation q q' -> Permutation (fold_left pk_add l q) (fold_left pk_add l q')).
+    { induction l as [|z l IHl]; intros q q' Hq; cbn; [exact Hq|]. apply IHl, pk_add_perm, Hq. }
+    apply Hl. etransitivity; [apply pk_add_swap|]. apply pk_add_perm, pk_add_perm, H.
+  - etransitivity; [apply IH1, H|]. apply IH2. reflexivity.
+Qed.
+
 Lemma pk_update_union_default p kf : default [] (pk_update PkUnion p kf) = pk_union (default [] p) kf.
 Proof.
   unfold pk_update. destruct (pk_union (default [] p) kf) eqn:E; [|reflexivity].
@@ -338,11 +415,12 @@ Qed.
 Lemma pk_update_oeq mode p p' kf : oeq p p' -> oeq (pk_update mode p kf) (pk_update mode p' kf).
 Proof.
   intros H. destruct mode.
-  - cbn. destruct kf; [exact H|reflexivity].
-  - intros x. rewrite !pk_update_union_default, !pk_union_in. rewrite (H x). reflexivity.
-  - cbn. destruct kf; [exact H|reflexivity].
+  - cbn. destruct kf; [exact H|unfold oeq; reflexivity].
+  - unfold oeq. rewrite !pk_update_union_default. apply pk_union_perm; [reflexivity|exact H].
+  - cbn. destruct kf; [exact H|unfold oeq; reflexivity].
 Qed.
 
+(* ---- fields ---- *)
 Definition names (fs : list fielddecl) : list name := map fd_name fs.
 
 Lemma insert_fields_app fs1 fs2 m : insert_fields (fs1 ++ fs2) m = insert_fields fs2 (insert_fields fs1 m).
@@ -351,16 +429,17 @@ Proof. unfold insert_fields. apply fold_left_app. Qed.
 Lemma insert_fields_notin fs : forall m nm, ~ In nm (names fs) -> insert_fields fs m !! nm = m !! nm.
 Proof.
   induction fs as [|fd fs IH]; intros m nm H; cbn; [reflexivity|].
-  cbn in H. rewrite IH by tauto. apply lookup_insert_ne. tauto.
+  cbn in H. unfold insert_fields in IH. rewrite IH by tauto. apply lookup_insert_ne. tauto.
 Qed.
 
-Lemma insert_fields_in fs : forall m m' nm, In nm (names fs) -> insert_fields fs m !! nm = insert_fields fs m' !! nm.
+(* what a share does to a field depends on that field only *)
+Lemma insert_fields_local fs : forall m m' nm, m !! nm = m' !! nm -> insert_fields fs m !! nm = insert_fields fs m' !! nm.
 Proof.
-  induction fs as [|fd fs IH]; intros m m' nm H; cbn; [destruct H|].
-  destruct (in_dec Pos.eq_dec nm (names fs)) as [Hin|Hout].
-  - apply IH, Hin.
-  - rewrite !insert_fields_notin by exact Hout.
-    destruct H as [<-|H]; [|contradiction]. rewrite !lookup_insert. reflexivity.
+  induction fs as [|fd fs IH]; intros m m' nm H; cbn; [exact H|].
+  unfold insert_fields in IH. apply IH.
+  destruct (decide (fd_name fd = nm)) as [->|Hne].
+  - rewrite !lookup_insert, H. reflexivity.
+  - rewrite !lookup_insert_ne by exact Hne. exact H.
 Qed.
 
 Lemma key_fields_ext fs m m' : (forall nm, In nm (names fs) -> m !! nm = m' !! nm) -> key_fields fs m = key_fields fs m'.
@@ -374,129 +453,261 @@ Proof. unfold key_fields. apply flat_map_app. Qed.
 
 Definition disjoint_names (l1 l2 : list name) : Prop := forall x, In x l1 -> In x l2 -> False.
 
+Lemma disjoint_names_sym l1 l2 : disjoint_names l1 l2 -> disjoint_names l2 l1.
+Proof. intros H x H1 H2. exact (H x H2 H1). Qed.
+
 Lemma insert_fields_comm fs1 fs2 m : disjoint_names (names fs1) (names fs2) ->
   insert_fields fs2 (insert_fields fs1 m) = insert_fields fs1 (insert_fields fs2 m).
 Proof.
   intros Hd. apply map_eq. intros nm.
   destruct (in_dec Pos.eq_dec nm (names fs1)) as [H1|H1]; destruct (in_dec Pos.eq_dec nm (names fs2)) as [H2|H2].
   - destruct (Hd nm H1 H2).
-  - rewrite (insert_fields_notin fs2) by exact H2. apply insert_fields_in, H1.
-  - rewrite (insert_fields_notin fs1 (insert_fields fs2 m)) by exact H2 || exact H1. apply insert_fields_in, H2.
+  - rewrite (insert_fields_notin fs2) by exact H2. symmetry. apply insert_fields_local, insert_fields_notin, H2.
+  - rewrite (insert_fields_notin fs1 (insert_fields fs2 m)) by exact H1. apply insert_fields_local, insert_fields_notin, H1.
   - rewrite !insert_fields_notin by assumption. reflexivity.
 Qed.
 
-(* the own key fields of a share do not depend on what the table held before *)
-Lemma key_fields_own fs m m' : key_fields fs (insert_fields fs m) = key_fields fs (insert_fields fs m').
-Proof. apply key_fields_ext. intros nm H. apply insert_fields_in, H. Qed.
+(* the own key fields of a share do not depend on fields the table holds under other names *)
+Lemma key_fields_own fs m m' : (forall nm, In nm (names fs) -> m !! nm = m' !! nm) ->
+  key_fields fs (insert_fields fs m) = key_fields fs (insert_fields fs m').
+Proof. intros H. apply key_fields_ext. intros nm Hn. apply insert_fields_local, H, Hn. Qed.
 
-Definition seq_g (g1 g2 : option typeent -> option (list name) -> option typeent * option (list name)) :=
-  fun t p => let r1 := g1 t p in g2 (fst r1) (snd r1).
+(* ---- attributes ---- *)
+Definition hkeys (a : list entry) : list name :=
+  flat_map (fun e => match e with EN k _ => [k] | EA k _ => [k] | ET _ => [patterns_key] end) a.
+Definition akeys (l : list anno) : list name := map fst l.
 
-Lemma apply_seq_type an n g1 g2 s :
-  apply_op an (OType n g2) (apply_op an (OType n g1) s) = apply_op an (OType n (seq_g g1 g2)) s.
+Lemma pats_in_hkeys a : forall t pats,
+  flat_map (fun e => match e with ET t => [t] | _ => [] end) a = t :: pats -> In patterns_key (hkeys a).
 Proof.
-  destruct s as [m p]. unfold apply_op; cbn [fst snd].
-  rewrite cur_app_insert; cbn [a_long a_attrs a_types a_eps].
-  rewrite !lookup_partial_alter, insert_insert.
-  unfold seq_g. cbn zeta.
-  rewrite <- !partial_alter_compose. reflexivity.
+  induction a as [|e a IH]; intros t pats E; cbn in E; [discriminate|].
+  cbn. apply in_or_app. destruct e as [k' v|t'|k' l]; cbn in E |- *; [right|left; left; reflexivity|right]; eapply IH; exact E.
 Qed.
 
-Lemma apply_ext_type an n g g' s :
-  (forall t p, fst (g t p) = fst (g' t p) /\ oeq (snd (g t p)) (snd (g' t p))) ->
-  Req (apply_op an (OType n g) s) (apply_op an (OType n g') s).
+Lemma make_attrs_none a k : ~ In k (hkeys a) -> make_attrs a !! k = None.
 Proof.
-  intros H. destruct s as [m p]. unfold apply_op; cbn [fst snd].
-  destruct (H (a_types (cur_app m an) !! n) (p !! (an, n))) as [H1 H2].
-  split; cbn [fst snd]; [rewrite H1; reflexivity|].
-  intros k. destruct (decide (k = (an, n))) as [->|Hne].
-  - rewrite !lookup_partial_alter. exact H2.
-  - rewrite !lookup_partial_alter_ne by congruence. reflexivity.
+  unfold make_attrs. intros H.
+  assert (Hnv : forall (es : list entry) (m : attrs), ~ In k (hkeys es) -> m !! k = None ->
+            fold_left (fun (m : attrs) e => match e with EN k v => <[k := VS v]> m | EA k l => <[k := VA l]> m | ET _ => m end) es m !! k = None).
+  { induction es as [|e es IH]; intros m Hk Hm; cbn; [exact Hm|].
+    cbn in Hk. rewrite in_app_iff in Hk. apply IH; [tauto|].
+    destruct e as [k' v|t|k' l]; cbn in Hk; [|exact Hm|]; rewrite lookup_insert_ne by tauto; exact Hm. }
+  destruct (flat_map _ a) as [|t pats] eqn:E.
+  - apply Hnv; [exact H|apply lookup_empty].
+  - rewrite lookup_insert_ne; [apply Hnv; [exact H|apply lookup_empty]|].
+    intros <-. apply H. eapply pats_in_hkeys, E.
 Qed.
 
-Lemma type_g_fusion table a fs1 fs2 : disjoint_names (names fs1) (names fs2) ->
-  forall t p, type_g PkUnion table a (fs1 ++ fs2) t p = seq_g (type_g PkUnion table a fs1) (type_g PkUnion table [] fs2) t p.
+Lemma anno_step_comm x y a : fst x <> fst y -> anno_step x (anno_step y a) = anno_step y (anno_step x a).
+Proof. intros H. unfold anno_step. apply partial_alter_commute. exact H. Qed.
+
+Lemma annos_step_app l1 l2 a : annos_step (l1 ++ l2) a = annos_step l2 (annos_step l1 a).
+Proof. unfold annos_step. apply fold_left_app. Qed.
+
+Lemma anno_annos_comm x l : ~ In (fst x) (akeys l) -> forall a, anno_step x (annos_step l a) = annos_step l (anno_step x a).
+Proof.
+  induction l as [|y l IH]; intros H a; cbn; [reflexivity|].
+  cbn in H. unfold annos_step in IH. rewrite IH by tauto. f_equal. apply anno_step_comm. intros E. apply H. left. congruence.
+Qed.
+
+Lemma annos_step_comm l1 l2 : disjoint_names (akeys l1) (akeys l2) ->
+  forall a, annos_step l1 (annos_step l2 a) = annos_step l2 (annos_step l1 a).
+Proof.
+  induction l1 as [|x l1 IH]; intros Hd a; cbn; [reflexivity|].
+  unfold annos_step in IH. rewrite <- IH by (intros z H1 H2; apply (Hd z); [right; exact H1|exact H2]).
+  f_equal. apply anno_annos_comm. intros H. apply (Hd (fst x)); [left; reflexivity|exact H].
+Qed.
+
+Lemma annos_step_perm l l' : Permutation l l' -> NoDup (akeys l) -> forall a, annos_step l a = annos_step l' a.
+Proof.
+  induction 1 as [|x l l' Hp IH|x y l|l l' l'' Hp1 IH1 Hp2 IH2]; intros Hnd a.
+  - reflexivity.
+  - cbn. apply IH. cbn in Hnd. apply NoDup_cons in Hnd. tauto.
+  - cbn. f_equal. apply anno_step_comm. cbn in Hnd. apply NoDup_cons in Hnd. destruct Hnd as [Hn _].
+    intros E. apply Hn. rewrite E. left.
+  - rewrite IH1 by exact Hnd. apply IH2. unfold akeys. rewrite <- (Permutation_map fst Hp1). exact Hnd.
+Qed.
+
+(* a header's attributes and an annotation of another name *)
+Lemma hattrs_anno_comm a x at0 : ~ In (fst x) (hkeys a) -> hattrs_step a (anno_step x at0) = anno_step x (hattrs_step a at0).
+Proof.
+  intros H. unfold hattrs_step. destruct a as [|e a]; [reflexivity|].
+  pose proof (make_attrs_none _ _ H) as Hn. set (src := make_attrs (e :: a)) in *.
+  unfold merge_attrs, anno_step. apply map_eq. intros j. rewrite lookup_merge.
+  destruct (decide (fst x = j)) as [<-|Hne].
+  - assert (Hid : forall o, diag_None merge_attr1 None o = o) by (intros [o|]; reflexivity).
+    rewrite !lookup_partial_alter, lookup_merge, Hn, !Hid. reflexivity.
+  - rewrite !lookup_partial_alter_ne by exact Hne. rewrite lookup_merge. reflexivity.
+Qed.
+
+Lemma tattrs_anno_comm a x at0 : ~ In (fst x) (hkeys a) -> tattrs_step a (anno_step x at0) = anno_step x (tattrs_step a at0).
+Proof.
+  intros H. unfold tattrs_step. destruct a as [|e a]; [reflexivity|].
+  pose proof (make_attrs_none _ _ H) as Hn. set (src := make_attrs (e :: a)) in *.
+  assert (Hu : src ∪ anno_step x at0 = anno_step x (src ∪ at0)).
+  { unfold anno_step. apply map_eq. intros j. rewrite lookup_union.
+    destruct (decide (fst x = j)) as [<-|Hne].
+    - rewrite !lookup_partial_alter, lookup_union, Hn. rewrite !(left_id_L None _). reflexivity.
+    - rewrite !lookup_partial_alter_ne by exact Hne. rewrite lookup_union. reflexivity. }
+  unfold merge_tattrs. destruct (decide (fst x = patterns_key)) as [E|Hne].
+  - rewrite <- E, Hn. exact Hu.
+  - replace (anno_step x at0 !! patterns_key) with (at0 !! patterns_key)
+      by (unfold anno_step; rewrite lookup_partial_alter_ne by exact Hne; reflexivity).
+    destruct (src !! patterns_key) as [[s|l]|]; try exact Hu.
+    destruct (at0 !! patterns_key) as [[s'|l']|]; try exact Hu.
+    rewrite Hu. unfold anno_step, insert, map_insert. apply partial_alter_commute. congruence.
+Qed.
+
+Lemma tattrs_annos_comm a l : disjoint_names (akeys l) (hkeys a) ->
+  forall at0, tattrs_step a (annos_step l at0) = annos_step l (tattrs_step a at0).
+Proof.
+  induction l as [|x l IH]; intros Hd at0; cbn; [reflexivity|].
+  unfold annos_step in IH. rewrite IH by (intros z H1 H2; apply (Hd z); [right; exact H1|exact H2]).
+  f_equal. apply tattrs_anno_comm. intros H. apply (Hd (fst x)); [left; reflexivity|exact H].
+Qed.
+
+(* ---- two shares of one type ---- *)
+Lemma type_g_fusion table a an1 an2 fs1 fs2 : disjoint_names (names fs1) (names fs2) ->
+  forall t p, type_g PkUnion table a (an1 ++ an2) (fs1 ++ fs2) t p
+            = seq_g (type_g PkUnion table a an1 fs1) (type_g PkUnion table [] an2 fs2) t p.
 Proof.
   intros Hd t p. unfold seq_g, type_g.
-  destruct (default (TRec table ∅ ∅) t) as [rel a0 fs0|a0 items]; cbn [fst snd default from_option id tattrs_step].
-  - rewrite insert_fields_app. f_equal.
-    destruct rel; [|reflexivity].
-    rewrite key_fields_app, pk_update_union_app. f_equal. f_equal.
-    apply key_fields_ext. intros nm Hn. apply insert_fields_notin. intros H2. exact (Hd nm Hn H2).
-  - reflexivity.
+  destruct (default (TRec table ∅ ∅) t) as [rel a0 fs0|a0 items|a0 ty|a0 alts];
+    cbn [fst snd default from_option id tattrs tattrs_step]; rewrite annos_step_app; try reflexivity.
+  rewrite insert_fields_app. f_equal.
+  destruct rel; [|reflexivity].
+  rewrite key_fields_app, pk_update_union_app. f_equal. f_equal.
+  apply key_fields_ext. intros nm Hn. apply insert_fields_notin. intros H2. exact (Hd nm Hn H2).
 Qed.
 
-Lemma type_g_comm table a1 fs1 a2 fs2 : disjoint_names (names fs1) (names fs2) -> a1 = [] \/ a2 = [] ->
-  forall t p,
-    fst (seq_g (type_g PkUnion table a1 fs1) (type_g PkUnion table a2 fs2) t p)
-      = fst (seq_g (type_g PkUnion table a2 fs2) (type_g PkUnion table a1 fs1) t p)
-    /\ oeq (snd (seq_g (type_g PkUnion table a1 fs1) (type_g PkUnion table a2 fs2) t p))
-           (snd (seq_g (type_g PkUnion table a2 fs2) (type_g PkUnion table a1 fs1) t p)).
+(* the attribute names a share writes; two shares may change places when at most one carries header attributes,
+   their annotations have different names and no annotation of one is named like a header attribute of the other *)
+Definition share_compat (a1 : list entry) (an1 : list anno) (fs1 : list fielddecl)
+                        (a2 : list entry) (an2 : list anno) (fs2 : list fielddecl) : Prop :=
+  (a1 = [] \/ a2 = []) /\ disjoint_names (akeys an1) (akeys an2) /\
+  disjoint_names (akeys an1) (hkeys a2) /\ disjoint_names (akeys an2) (hkeys a1) /\
+  disjoint_names (names fs1) (names fs2).
+
+Lemma share_attrs_comm a1 an1 a2 an2 : (a1 = [] \/ a2 = []) -> disjoint_names (akeys an1) (akeys an2) ->
+  disjoint_names (akeys an1) (hkeys a2) -> disjoint_names (akeys an2) (hkeys a1) ->
+  forall a0, annos_step an2 (tattrs_step a2 (annos_step an1 (tattrs_step a1 a0)))
+           = annos_step an1 (tattrs_step a1 (annos_step an2 (tattrs_step a2 a0))).
 Proof.
-  intros Hd Ha t p. unfold seq_g, type_g.
-  assert (Hat : forall a0, tattrs_step a2 (tattrs_step a1 a0) = tattrs_step a1 (tattrs_step a2 a0)).
-  { intros a0. destruct Ha as [-> | ->]; reflexivity. }
-  destruct (default (TRec table ∅ ∅) t) as [rel a0 fs0|a0 items]; cbn [fst snd default from_option id].
-  - split.
-    + rewrite Hat, (insert_fields_comm fs1 fs2) by exact Hd. reflexivity.
-    + destruct rel; [|reflexivity].
-      intros x. rewrite !pk_update_union_default, !pk_union_in.
-      rewrite (key_fields_own fs2 (insert_fields fs1 fs0) fs0), (key_fields_own fs1 (insert_fields fs2 fs0) fs0). tauto.
-  - rewrite Hat. split; reflexivity.
+  intros Ha Hd H12 H21 a0.
+  rewrite (tattrs_annos_comm a2 an1 H12), (tattrs_annos_comm a1 an2 H21).
+  rewrite (annos_step_comm an2 an1 (disjoint_names_sym _ _ Hd)). f_equal. f_equal.
+  destruct Ha as [-> | ->]; reflexivity.
 Qed.
 
+Lemma type_g_comm table a1 an1 fs1 a2 an2 fs2 : share_compat a1 an1 fs1 a2 an2 fs2 ->
+  forall t p,
+    fst (seq_g (type_g PkUnion table a1 an1 fs1) (type_g PkUnion table a2 an2 fs2) t p)
+      = fst (seq_g (type_g PkUnion table a2 an2 fs2) (type_g PkUnion table a1 an1 fs1) t p)
+    /\ oeq (snd (seq_g (type_g PkUnion table a1 an1 fs1) (type_g PkUnion table a2 an2 fs2) t p))
+           (snd (seq_g (type_g PkUnion table a2 an2 fs2) (type_g PkUnion table a1 an1 fs1) t p)).
+Proof.
+  intros (Ha & Hd & H12 & H21 & Hf) t p. unfold seq_g, type_g.
+  pose proof (share_attrs_comm a1 an1 a2 an2 Ha Hd H12 H21) as Hat.
+  destruct (default (TRec table ∅ ∅) t) as [rel a0 fs0|a0 items|a0 ty|a0 alts];
+    cbn [fst snd default from_option id tattrs]; rewrite Hat; try (split; reflexivity).
+  split.
+  - rewrite (insert_fields_comm fs1 fs2) by exact Hf. reflexivity.
+  - destruct rel; [|reflexivity].
+    unfold oeq. rewrite !pk_update_union_default, <- !pk_union_app.
+    apply pk_union_perm; [|reflexivity].
+    rewrite (key_fields_own fs2 (insert_fields fs1 fs0) fs0), (key_fields_own fs1 (insert_fields fs2 fs0) fs0).
+    + apply Permutation_app_comm.
+    + intros nm Hn. apply insert_fields_notin. intros H. exact (Hf nm Hn H).
+    + intros nm Hn. apply insert_fields_notin. intros H. exact (Hf nm H Hn).
+Qed.
 (* ------------------------------------------------------------------------------------------------ *)
 (* 5. independence of declarations, commutation, well-formed contents                                *)
 Definition x_cellid (x : xatom) : cellid :=
   match x with
-  | XHead _ _ _ => CHead
-  | XType _ _ n _ _ | XEnum _ n _ _ => CType n
-  | XEp _ n _ _ | XEvent _ n _ => CEp (None, [n])
+  | XHead _ _ _ | XAnno _ _ => CHead
+  | XType _ _ n _ _ _ | XRepl _ n _ => CType n
+  | XEp _ n _ _ _ _ | XEvent _ n _ _ => CEp (None, [n])
   | XMeth _ (k, _, _) => CEp k
+  | XSub _ key _ _ _ _ => CEp (None, [key])
+  | XSubCall _ evt _ _ => CEp (None, [evt])
+  | XMixin _ _ => CType mixin_key
   | XDots _ => CEp (None, [dots_name])
   end.
 Definition x_cell (x : xatom) : appname * cellid := (x_app x, x_cellid x).
 
 Lemma op_cell_x mode x : op_cell (x_op mode x) = x_cellid x.
-Proof. destruct x as [| | | | |? [[? ?] ?]|]; reflexivity. Qed.
+Proof. destruct x as [| | | | | |? [[? ?] ?]| | | |]; reflexivity. Qed.
 
-(* two declarations on the SAME cell that may still be reordered: shares of one type with disjoint field
-   names, the same kind and attributes on at most one of them; headers of which one is a bare re-opening *)
+(* two declarations on the SAME cell that may still be reordered:
+   - shares of one type (share_compat), the same kind
+   - headers of which one is a bare re-opening; an annotation of the application and a header that does not set
+     that name; two annotations of the application with different names
+   - two mixins of one application (the order of Mixin2 follows the blocks: equal up to that order)
+   - an event declared without parameters and statements (`<-> E: ...`) and a subscription to it *)
 Definition frag_compat (x y : xatom) : Prop :=
   match x, y with
-  | XType an t n a fs, XType an' t' n' a' fs' =>
-      an = an' /\ n = n' /\ t = t' /\ (a = [] \/ a' = []) /\ disjoint_names (names fs) (names fs')
+  | XType an t n a annos fs, XType an' t' n' a' annos' fs' =>
+      an = an' /\ n = n' /\ t = t' /\ share_compat a annos fs a' annos' fs'
   | XHead an l a, XHead an' l' a' => an = an' /\ ((l = None /\ a = []) \/ (l' = None /\ a' = []))
+  | XHead an l a, XAnno an' x => an = an' /\ ~ In (fst x) (hkeys a)
+  | XAnno an' x, XHead an l a => an = an' /\ ~ In (fst x) (hkeys a)
+  | XAnno an x, XAnno an' y => an = an' /\ fst x <> fst y
+  | XMixin an _, XMixin an' _ => an = an'
+  | XEvent an n params body, XSubCall pub evt _ _ => an = pub /\ n = evt /\ params = [] /\ body = []
+  | XSubCall pub evt _ _, XEvent an n params body => an = pub /\ n = evt /\ params = [] /\ body = []
   | _, _ => False
   end.
 Definition indep (x y : xatom) : Prop := x_cell x <> x_cell y \/ frag_compat x y.
+
+Lemma share_compat_sym a1 an1 fs1 a2 an2 fs2 : share_compat a1 an1 fs1 a2 an2 fs2 -> share_compat a2 an2 fs2 a1 an1 fs1.
+Proof.
+  intros (Ha & Hd & H12 & H21 & Hf). repeat split; try assumption; [tauto|apply disjoint_names_sym, Hd|apply disjoint_names_sym, Hf].
+Qed.
 
 Lemma indep_sym x y : indep x y -> indep y x.
 Proof.
   intros [H|H]; [left; congruence|right].
   destruct x, y; cbn in *; try contradiction.
   - destruct H as [-> H]. split; [reflexivity|tauto].
-  - destruct H as (-> & -> & -> & Ha & Hd). repeat split; [tauto|]. intros x H1 H2. exact (Hd x H2 H1).
+  - exact H.
+  - exact H.
+  - destruct H as [-> H]. split; [reflexivity|congruence].
+  - destruct H as (-> & -> & -> & H). split; [reflexivity|split; [reflexivity|split; [reflexivity|apply share_compat_sym, H]]].
+  - exact H.
+  - exact H.
+  - symmetry. exact H.
 Qed.
 
 Lemma good_x mode x : good_op (x_op mode x).
 Proof.
-  destruct x as [| an table n a fs | an n a items | | |? [[? ?] ?]|]; cbn; try exact I.
+  destruct x as [| | an table n a annos fs | an n t | | |? [[? ?] ?]| | | an x|]; cbn; try exact I.
   - intros t p p' Hp. unfold type_g.
-    destruct (default (TRec table ∅ ∅) t) as [rel a0 fs0|a0 its]; cbn [fst snd].
-    + split; [reflexivity|]. destruct rel; [apply pk_update_oeq, Hp|exact Hp].
-    + split; [reflexivity|exact Hp].
-  - intros t p p' Hp. destruct items; cbn [fst snd]; split; try reflexivity. exact Hp.
+    destruct (default (TRec table ∅ ∅) t) as [rel a0 fs0|a0 its|a0 ty|a0 alts]; cbn [fst snd];
+      (split; [reflexivity|]); try exact Hp.
+    destruct rel; [apply pk_update_oeq, Hp|exact Hp].
+  - intros t0 p p' Hp. unfold repl_g. destruct t; cbn [fst snd]; split; try reflexivity. exact Hp.
+  - intros t0 p p' Hp. unfold mixin_g; cbn [fst snd]. split; [reflexivity|].
+    unfold oeq in *. cbn [default from_option id]. apply Permutation_app; [exact Hp|reflexivity].
 Qed.
 
 Lemma xstep_proper mode s s' x : Req s s' -> Req (xstep mode s x) (xstep mode s' x).
 Proof. apply apply_proper, good_x. Qed.
 
-Lemma head_touch_comm mode an l a s :
-  xstep mode (xstep mode s (XHead an l a)) (XHead an None []) = xstep mode (xstep mode s (XHead an None [])) (XHead an l a).
+(* a bare re-opening header changes nothing but creates the application entry *)
+Lemma touch_comm_op an o s :
+  apply_op an o (apply_op an (OHead (head_f None [])) s) = apply_op an (OHead (head_f None [])) (apply_op an o s).
 Proof.
-  destruct s as [m p]. unfold xstep, apply_op; cbn [x_app x_op fst snd].
-  rewrite !cur_app_insert; cbn [a_long a_attrs a_types a_eps]. rewrite !insert_insert. reflexivity.
+  destruct s as [m p]. destruct o as [h|n g|k e]; unfold apply_op; cbn [fst snd head_f hattrs_step];
+    rewrite !cur_app_insert; cbn [a_long a_attrs a_types a_eps]; rewrite !insert_insert; reflexivity.
+Qed.
+
+Lemma touch_comm mode an s x :
+  xstep mode (xstep mode s (XHead an None [])) x = xstep mode (xstep mode s x) (XHead an None []).
+Proof.
+  unfold xstep; cbn [x_app x_op].
+  destruct (decide (an = x_app x)) as [->|Hne].
+  - apply touch_comm_op.
+  - apply apply_comm_ne. congruence.
 Qed.
 
 Lemma xstep_comm s x y : indep x y ->
@@ -504,29 +715,50 @@ Lemma xstep_comm s x y : indep x y ->
 Proof.
   intros [Hc|Hf].
   - unfold xstep. rewrite apply_comm_ne; [reflexivity|]. rewrite !op_cell_x. unfold x_cell in Hc. congruence.
-  - destruct x as [an l a|an t n a fs| | | | |], y as [an' l' a'|an' t' n' a' fs'| | | | |]; cbn in Hf; try contradiction.
-    + destruct Hf as [<- [[-> ->]|[-> ->]]].
-      * rewrite head_touch_comm. reflexivity.
-      * rewrite head_touch_comm. reflexivity.
-    + destruct Hf as (<- & <- & <- & Ha & Hd).
+  - destruct x as [an l a|an x|an t n a annos fs| | |an n params body| | |pub evt caller key|an x|],
+             y as [an' l' a'|an' y|an' t' n' a' annos' fs'| | |an' n' params' body'| | |pub' evt' caller' key'|an' y|];
+      cbn in Hf; try contradiction.
+    + (* header / bare header *)
+      destruct Hf as [<- [[-> ->]|[-> ->]]].
+      * rewrite touch_comm. reflexivity.
+      * rewrite <- touch_comm. reflexivity.
+    + (* header / annotation *)
+      destruct Hf as [<- Hk]. unfold xstep; cbn [x_app x_op]. rewrite !apply_seq_head.
+      erewrite apply_ext_head; [reflexivity|]. intros l0 a0. unfold head_f; cbn [fst snd]. f_equal.
+      symmetry. apply hattrs_anno_comm, Hk.
+    + destruct Hf as [<- Hk]. unfold xstep; cbn [x_app x_op]. rewrite !apply_seq_head.
+      erewrite apply_ext_head; [reflexivity|]. intros l0 a0. unfold head_f; cbn [fst snd]. f_equal.
+      apply hattrs_anno_comm, Hk.
+    + (* two annotations *)
+      destruct Hf as [<- Hk]. unfold xstep; cbn [x_app x_op]. rewrite !apply_seq_head.
+      erewrite apply_ext_head; [reflexivity|]. intros l0 a0. cbn [fst snd]. f_equal.
+      apply anno_step_comm. congruence.
+    + (* two shares of a type *)
+      destruct Hf as (<- & <- & <- & Hs).
       unfold xstep; cbn [x_app x_op]. rewrite !apply_seq_type.
       apply apply_ext_type. apply type_g_comm; assumption.
-Qed.
-
-(* a bare re-opening header commutes with every declaration, and is absorbed once its app exists *)
-Lemma touch_comm mode an s x :
-  xstep mode (xstep mode s (XHead an None [])) x = xstep mode (xstep mode s x) (XHead an None []).
-Proof.
-  destruct (decide (x_cell (XHead an None []) = x_cell x)) as [He|Hne].
-  - destruct x as [| | | | |? [[? ?] ?]|]; unfold x_cell in He; cbn in He; try discriminate.
-    inversion He; subst. symmetry. apply head_touch_comm.
-  - unfold xstep. apply apply_comm_ne. rewrite !op_cell_x. exact (fun H => Hne (eq_sym H)).
+    + (* event declared empty / subscription *)
+      destruct Hf as (-> & -> & -> & ->).
+      unfold xstep; cbn [x_app x_op]. rewrite !apply_seq_ep.
+      erewrite apply_ext_ep; [reflexivity|]. intros e0. unfold event_f, subcall_f.
+      destruct e0 as [e|]; cbn [default from_option id e_pubsub e_rest e_source e_attrs e_params e_query e_url e_stmts new_ep];
+        rewrite ?app_nil_r; reflexivity.
+    + destruct Hf as (-> & -> & -> & ->).
+      unfold xstep; cbn [x_app x_op]. rewrite !apply_seq_ep.
+      erewrite apply_ext_ep; [reflexivity|]. intros e0. unfold event_f, subcall_f.
+      destruct e0 as [e|]; cbn [default from_option id e_pubsub e_rest e_source e_attrs e_params e_query e_url e_stmts new_ep];
+        rewrite ?app_nil_r; reflexivity.
+    + (* two mixins *)
+      subst an'. unfold xstep; cbn [x_app x_op]. rewrite !apply_seq_type.
+      apply apply_ext_type. intros t0 p0. unfold seq_g, mixin_g; cbn [fst snd default from_option id].
+      split; [reflexivity|]. unfold oeq; cbn [default from_option id]. rewrite <- !app_assoc.
+      apply Permutation_app; [reflexivity|apply perm_swap].
 Qed.
 
 Lemma touch_absorbed mode s x :
   xstep mode (xstep mode s x) (XHead (x_app x) None []) = xstep mode s x.
 Proof.
-  destruct s as [m p]. unfold xstep at 1. unfold apply_op at 1. cbn [x_app x_op fst snd].
+  destruct s as [m p]. unfold xstep at 1. unfold apply_op at 1. cbn [x_app x_op head_f hattrs_step fst snd].
   rewrite app_eta.
   assert (H : fst (xstep mode (m, p) x) !! x_app x = Some (cur_app (fst (xstep mode (m, p) x)) (x_app x))).
   { unfold xstep, apply_op. destruct (x_op mode x); cbn [fst]; rewrite cur_app_insert, lookup_insert; reflexivity. }
@@ -547,106 +779,138 @@ Qed.
 
 (* ---- well-formed contents and the layouts of one specification ---- *)
 Definition wf_x (x : xatom) : Prop :=
-  match x with XType _ _ _ _ fs => NoDup (names fs) | _ => True end.
+  match x with
+  | XType _ _ _ a annos fs => NoDup (names fs) /\ NoDup (akeys annos) /\ disjoint_names (akeys annos) (hkeys a)
+  | _ => True
+  end.
 Definition wf (l : list xatom) : Prop := pairwise indep l /\ Forall wf_x l.
 
 Inductive refines : list xatom -> list xatom -> Prop :=
 | rf_perm l l' : Permutation l l' -> refines l l'
-| rf_split an t n a fs1 fs2 l :
-    refines (XType an t n a (fs1 ++ fs2) :: l) (XType an t n a fs1 :: XType an t n [] fs2 :: l)
-| rf_fields an t n a fs fs' l : Permutation fs fs' ->
-    refines (XType an t n a fs :: l) (XType an t n a fs' :: l)
+| rf_split an t n a an1 an2 fs1 fs2 l :
+    refines (XType an t n a (an1 ++ an2) (fs1 ++ fs2) :: l) (XType an t n a an1 fs1 :: XType an t n [] an2 fs2 :: l)
+| rf_fields an t n a annos annos' fs fs' l : Permutation fs fs' -> Permutation annos annos' ->
+    refines (XType an t n a annos fs :: l) (XType an t n a annos' fs' :: l)
 | rf_reopen an l : (exists x, In x l /\ x_app x = an) -> refines l (XHead an None [] :: l)
 | rf_trans l1 l2 l3 : refines l1 l2 -> refines l2 l3 -> refines l1 l3.
 
-Lemma NoDup_app_disjoint fs1 fs2 : NoDup (names (fs1 ++ fs2)) -> disjoint_names (names fs1) (names fs2).
+Lemma NoDup_app_disjoint (l1 l2 : list name) : NoDup (l1 ++ l2) -> disjoint_names l1 l2.
 Proof.
-  unfold names. rewrite map_app. intros H x H1 H2.
-  apply NoDup_app in H. destruct H as (_ & Hd & _).
+  intros H x H1 H2. apply NoDup_app in H. destruct H as (_ & Hd & _).
   apply (Hd x); apply elem_of_list_In; assumption.
 Qed.
 
+Lemma names_app fs1 fs2 : names (fs1 ++ fs2) = names fs1 ++ names fs2.
+Proof. apply map_app. Qed.
+Lemma akeys_app l1 l2 : akeys (l1 ++ l2) = akeys l1 ++ akeys l2.
+Proof. apply map_app. Qed.
+
 Lemma names_perm fs fs' : Permutation fs fs' -> Permutation (names fs) (names fs').
+Proof. apply Permutation_map. Qed.
+Lemma akeys_perm l l' : Permutation l l' -> Permutation (akeys l) (akeys l').
 Proof. apply Permutation_map. Qed.
 
 Lemma insert_fields_perm fs fs' : Permutation fs fs' -> NoDup (names fs) ->
   forall m, insert_fields fs m = insert_fields fs' m.
 Proof.
+  unfold insert_fields.
   induction 1 as [|x l l' Hp IH|x y l|l l' l'' Hp1 IH1 Hp2 IH2]; intros Hnd m.
   - reflexivity.
   - cbn. apply IH. cbn in Hnd. apply NoDup_cons in Hnd. tauto.
-  - cbn. f_equal. apply insert_commute. cbn in Hnd.
-    apply NoDup_cons in Hnd. destruct Hnd as [Hn _]. intros E. apply Hn. rewrite E. left.
+  - cbn. cbn in Hnd. apply NoDup_cons in Hnd. destruct Hnd as [Hn _].
+    assert (Hxy : fd_name y <> fd_name x) by (intros E; apply Hn; rewrite E; left).
+    rewrite !lookup_insert_ne by congruence. f_equal. apply insert_commute. congruence.
   - rewrite IH1 by exact Hnd. apply IH2. rewrite <- (names_perm _ _ Hp1). exact Hnd.
 Qed.
 
-Lemma type_g_perm table a fs fs' : Permutation fs fs' -> NoDup (names fs) ->
-  forall t p, fst (type_g PkUnion table a fs t p) = fst (type_g PkUnion table a fs' t p)
-           /\ oeq (snd (type_g PkUnion table a fs t p)) (snd (type_g PkUnion table a fs' t p)).
+Lemma type_g_perm table a annos annos' fs fs' : Permutation fs fs' -> Permutation annos annos' ->
+  NoDup (names fs) -> NoDup (akeys annos) ->
+  forall t p, fst (type_g PkUnion table a annos fs t p) = fst (type_g PkUnion table a annos' fs' t p)
+           /\ oeq (snd (type_g PkUnion table a annos fs t p)) (snd (type_g PkUnion table a annos' fs' t p)).
 Proof.
-  intros Hp Hnd t p. unfold type_g.
-  destruct (default (TRec table ∅ ∅) t) as [rel a0 fs0|a0 items]; cbn [fst snd]; [|split; reflexivity].
+  intros Hp Hpa Hnd Hna t p. unfold type_g.
+  rewrite (annos_step_perm annos annos' Hpa Hna).
+  destruct (default (TRec table ∅ ∅) t) as [rel a0 fs0|a0 items|a0 ty|a0 alts]; cbn [fst snd]; try (split; reflexivity).
   rewrite (insert_fields_perm fs fs' Hp Hnd). split; [reflexivity|].
   destruct rel; [|reflexivity].
-  intros x. rewrite !pk_update_union_default, !pk_union_in.
-  assert (Hk : Permutation (key_fields fs (insert_fields fs' fs0)) (key_fields fs' (insert_fields fs' fs0))).
-  { unfold key_fields. apply Permutation_flat_map, Hp. }
-  split; (intros [H|H]; [left; exact H|right]); [eapply Permutation_in; [exact Hk|exact H]|].
-  eapply Permutation_in; [symmetry; exact Hk|exact H].
+  unfold oeq. rewrite !pk_update_union_default. apply pk_union_perm; [|reflexivity].
+  unfold key_fields. apply Permutation_flat_map, Hp.
+Qed.
+
+Lemma disjoint_sub (l1 l1' l2 l2' : list name) :
+  (forall x, In x l1' -> In x l1) -> (forall x, In x l2' -> In x l2) -> disjoint_names l1 l2 -> disjoint_names l1' l2'.
+Proof. intros H1 H2 Hd x Hx1 Hx2. exact (Hd x (H1 x Hx1) (H2 x Hx2)). Qed.
+
+(* a declaration that may change places with a share may change places with every part of it *)
+Lemma indep_share_sub an t n a annos fs a' annos' fs' y :
+  (a' = a \/ a' = []) -> (forall x, In x (akeys annos') -> In x (akeys annos)) ->
+  (forall x, In x (names fs') -> In x (names fs)) ->
+  indep (XType an t n a annos fs) y -> indep (XType an t n a' annos' fs') y.
+Proof.
+  intros Ha Hk Hf [Hc|Hc]; [left; exact Hc|right].
+  destruct y; cbn in Hc |- *; try contradiction.
+  destruct Hc as (-> & -> & -> & (Haa & Hd & H12 & H21 & Hff)). repeat split.
+  - destruct Ha as [-> | ->]; tauto.
+  - eapply disjoint_sub; [exact Hk| |exact Hd]. auto.
+  - eapply disjoint_sub; [exact Hk| |exact H12]. auto.
+  - destruct Ha as [-> | ->]; [exact H21|intros x _ []].
+  - eapply disjoint_sub; [exact Hf| |exact Hff]. auto.
 Qed.
 
 Lemma refines_wf l l' : refines l l' -> wf l -> wf l'.
 Proof.
-  induction 1 as [l l' Hp|an t n a fs1 fs2 l|an t n a fs fs' l Hp|an l Hx|l1 l2 l3 _ IH1 _ IH2]; intros [Hpw Hwf].
+  induction 1 as [l l' Hp|an t n a an1 an2 fs1 fs2 l|an t n a annos annos' fs fs' l Hp Hpa|an l Hx|l1 l2 l3 _ IH1 _ IH2]; intros [Hpw Hwf].
   - split; [eapply pairwise_perm; [exact indep_sym|exact Hp|exact Hpw]|eapply Permutation_Forall; eassumption].
-  - inversion Hpw as [|? ? Hf Hl]; subst. inversion Hwf as [|? ? Hnd Hwl]; subst. cbn in Hnd.
-    pose proof (NoDup_app_disjoint _ _ Hnd) as Hd.
-    assert (Hsub : forall (fs' : list fielddecl) (a' : list entry),
-              (a' = a \/ a' = []) -> (forall x, In x (names fs') -> In x (names (fs1 ++ fs2))) ->
-              Forall (indep (XType an t n a' fs')) l).
-    { intros fs' a' Ha' Hs. eapply Forall_impl; [exact Hf|]. intros y [Hc|Hc]; [left; exact Hc|right].
-      destruct y; cbn in Hc |- *; try contradiction.
-      destruct Hc as (-> & -> & -> & Haa & Hdd). repeat split.
-      - destruct Ha' as [-> | ->]; tauto.
-      - intros x H1 H2. exact (Hdd x (Hs x H1) H2). }
+  - inversion Hpw as [|? ? Hf Hl]; subst. inversion Hwf as [|? ? Hx Hwl]; subst. destruct Hx as (Hnd & Hna & Hah).
+    rewrite names_app in Hnd. rewrite akeys_app in Hna, Hah.
     split.
     + constructor.
       * constructor.
-        -- right. cbn. repeat split; [tauto|exact Hd].
-        -- apply Hsub; [tauto|]. intros x Hx. unfold names. rewrite map_app. apply in_or_app. left; exact Hx.
+        -- right. cbn. repeat split; [tauto|apply NoDup_app_disjoint, Hna|intros x _ []| |apply NoDup_app_disjoint, Hnd].
+           eapply disjoint_sub; [| |exact Hah]; [intros x Hx; apply in_or_app; right; exact Hx|auto].
+        -- eapply Forall_impl; [exact Hf|]. intros y. apply indep_share_sub; [tauto| |].
+           ++ intros x Hx. rewrite akeys_app. apply in_or_app. left; exact Hx.
+           ++ intros x Hx. rewrite names_app. apply in_or_app. left; exact Hx.
       * constructor; [|exact Hl].
-        apply Hsub; [tauto|]. intros x Hx. unfold names. rewrite map_app. apply in_or_app. right; exact Hx.
-    + unfold names in Hnd. rewrite map_app in Hnd. apply NoDup_app in Hnd. destruct Hnd as (Hn1 & _ & Hn2).
-      constructor; [exact Hn1|]. constructor; [exact Hn2|exact Hwl].
-  - inversion Hpw as [|? ? Hf Hl]; subst. inversion Hwf as [|? ? Hnd Hwl]; subst. cbn in Hnd.
+        eapply Forall_impl; [exact Hf|]. intros y. apply indep_share_sub; [tauto| |].
+        -- intros x Hx. rewrite akeys_app. apply in_or_app. right; exact Hx.
+        -- intros x Hx. rewrite names_app. apply in_or_app. right; exact Hx.
+    + apply NoDup_app in Hnd. destruct Hnd as (Hn1 & _ & Hn2). apply NoDup_app in Hna. destruct Hna as (Ha1 & _ & Ha2).
+      constructor; [|constructor; [|exact Hwl]]; cbn.
+      * repeat split; [exact Hn1|exact Ha1|]. eapply disjoint_sub; [| |exact Hah]; [intros x Hx; apply in_or_app; left; exact Hx|auto].
+      * repeat split; [exact Hn2|exact Ha2|intros x _ []].
+  - inversion Hpw as [|? ? Hf Hl]; subst. inversion Hwf as [|? ? Hx Hwl]; subst. destruct Hx as (Hnd & Hna & Hah).
     split.
-    + constructor; [|exact Hl]. eapply Forall_impl; [exact Hf|]. intros y [Hc|Hc]; [left; exact Hc|right].
-      destruct y; cbn in Hc |- *; try contradiction.
-      destruct Hc as (-> & -> & -> & Haa & Hdd). repeat split; [exact Haa|].
-      intros x H1 H2. apply (Hdd x); [|exact H2].
-      eapply Permutation_in; [symmetry; apply names_perm, Hp|exact H1].
-    + constructor; [|exact Hwl]. cbn. rewrite <- (names_perm _ _ Hp). exact Hnd.
+    + constructor; [|exact Hl]. eapply Forall_impl; [exact Hf|]. intros y. apply indep_share_sub; [tauto| |].
+      * intros x Hx. eapply Permutation_in; [symmetry; apply akeys_perm, Hpa|exact Hx].
+      * intros x Hx. eapply Permutation_in; [symmetry; apply names_perm, Hp|exact Hx].
+    + constructor; [|exact Hwl]. cbn. split; [|split].
+      * rewrite <- (names_perm _ _ Hp). exact Hnd.
+      * rewrite <- (akeys_perm _ _ Hpa). exact Hna.
+      * intros x Hx. apply Hah. eapply Permutation_in; [symmetry; apply akeys_perm, Hpa|exact Hx].
   - split; [|constructor; [exact I|exact Hwf]].
     constructor; [|exact Hpw]. apply Forall_forall. intros y _.
     destruct (decide (x_cell (XHead an None []) = x_cell y)) as [He|Hne]; [right|left; exact Hne].
-    destruct y as [| | | | |? [[? ?] ?]|]; unfold x_cell in He; cbn in He; try discriminate. inversion He; subst. cbn. tauto.
+    destruct y as [| | | | | |? [[? ?] ?]| | | |]; unfold x_cell in He; cbn in He; try discriminate; inversion He; subst; cbn.
+    + tauto.
+    + split; [reflexivity|]. intros [].
   - apply IH2, IH1. split; assumption.
 Qed.
 
 Theorem refines_sound l l' : refines l l' -> wf l ->
   forall s s', Req s s' -> Req (fold_left (xstep PkUnion) l s) (fold_left (xstep PkUnion) l' s').
 Proof.
-  induction 1 as [l l' Hp|an t n a fs1 fs2 l|an t n a fs fs' l Hp|an l Hx|l1 l2 l3 H1 IH1 H2 IH2]; intros Hw s s' Hs.
+  induction 1 as [l l' Hp|an t n a an1 an2 fs1 fs2 l|an t n a annos annos' fs fs' l Hp Hpa|an l Hx|l1 l2 l3 H1 IH1 H2 IH2]; intros Hw s s' Hs.
   - destruct Hw as [Hpw _].
     eapply (fold_perm Req (xstep PkUnion) indep); eauto using indep_sym, xstep_comm.
     intros; apply xstep_proper; assumption.
-  - destruct Hw as [_ Hwf]. inversion Hwf as [|? ? Hnd _]; subst. cbn in Hnd.
+  - destruct Hw as [_ Hwf]. inversion Hwf as [|? ? Hx _]; subst. destruct Hx as (Hnd & _ & _). rewrite names_app in Hnd.
     cbn [fold_left]. apply (fold_proper Req (xstep PkUnion)); [intros; apply xstep_proper; assumption|].
     unfold xstep at 2 3; cbn [x_app x_op]. rewrite apply_seq_type.
     etransitivity; [apply xstep_proper, Hs|]. unfold xstep; cbn [x_app x_op].
     apply apply_ext_type. intros t0 p0.
     rewrite type_g_fusion by (apply NoDup_app_disjoint, Hnd). split; reflexivity.
-  - destruct Hw as [_ Hwf]. inversion Hwf as [|? ? Hnd _]; subst. cbn in Hnd.
+  - destruct Hw as [_ Hwf]. inversion Hwf as [|? ? Hx _]; subst. destruct Hx as (Hnd & Hna & _).
     cbn [fold_left]. apply (fold_proper Req (xstep PkUnion)); [intros; apply xstep_proper; assumption|].
     etransitivity; [apply xstep_proper, Hs|]. unfold xstep; cbn [x_app x_op].
     apply apply_ext_type. apply type_g_perm; assumption.
@@ -731,11 +995,11 @@ Lemma bcontent_perm bs bs' : Permutation bs bs' -> Permutation (bcontent bs) (bc
 Proof. intros H. unfold bcontent, content. apply Permutation_flat_map, Permutation_flat_map, H. Qed.
 
 (* HEADLINE.  `joined` is any block list with well-formed content (in particular: one block per app, every
-   member once).  `files` is any set of files whose blocks, taken together, declare the same things: obtained
-   from the joined content by permuting declarations, splitting the fields of a type over several shares,
-   permuting the fields inside a type and adding bare re-opening headers - in any import graph that reaches every
-   file (any order of import statements, any assignment of blocks to files).  Then the compiled models agree;
-   primary-key lists agree as sets. *)
+   member once, every attribute name of a cell set once).  `files` is any set of files whose blocks, taken together,
+   declare the same things: obtained from the joined content by permuting declarations, splitting the fields and
+   annotations of a type over several shares, permuting the fields / annotations inside a type and adding bare
+   re-opening headers - in any import graph that reaches every file (any order of import statements, any assignment
+   of blocks to files).  Then the compiled models agree; primary-key lists and mixin lists agree up to their order. *)
 Theorem merge_partition_invariant files root joined :
   NoDup (map fst files) -> all_reached files root = true ->
   wf (bcontent joined) -> refines (bcontent joined) (bcontent (all_blocks files)) ->
@@ -758,14 +1022,27 @@ Proof.
   symmetry. eapply merge_partition_invariant; eassumption.
 Qed.
 
+Definition key_of (s : state) (k : appname * name) : list name := default [] (snd s !! k).
+
+Theorem merge_partition_invariant_perm files root joined :
+  NoDup (map fst files) -> all_reached files root = true ->
+  wf (bcontent joined) -> refines (bcontent joined) (bcontent (all_blocks files)) ->
+  fst (denote_files PkUnion files root) = fst (denote_blocks PkUnion joined) /\
+  forall k, Permutation (key_of (denote_files PkUnion files root) k) (key_of (denote_blocks PkUnion joined) k).
+Proof.
+  intros Hnd Hall Hwf Href.
+  destruct (merge_partition_invariant files root joined Hnd Hall Hwf Href) as [H1 H2].
+  split; [exact H1|]. intros k. apply H2.
+Qed.
+
 (* ---- whatever ExitTable does with the key: everything except the primary keys is invariant ---- *)
 Lemma fst_xstep_mode mode mode' s s' x : fst s = fst s' -> fst (xstep mode s x) = fst (xstep mode' s' x).
 Proof.
   destruct s as [m p], s' as [m' p']. cbn [fst]. intros <-.
-  destruct x as [| an table n a fs | an n a items | | |? [[? ?] ?]|]; try reflexivity.
+  destruct x as [| | an table n a annos fs | an n t | | |? [[? ?] ?]| | | |]; try reflexivity.
   - unfold xstep, apply_op; cbn [x_app x_op fst snd]. unfold type_g.
     destruct (default (TRec table ∅ ∅) (a_types (cur_app m an) !! n)); reflexivity.
-  - unfold xstep, apply_op; cbn [x_app x_op fst snd]. destruct items; reflexivity.
+  - unfold xstep, apply_op; cbn [x_app x_op fst snd]. unfold repl_g. destruct t; reflexivity.
 Qed.
 
 Lemma fst_fold_mode mode mode' l : forall s s', fst s = fst s' ->
@@ -786,32 +1063,33 @@ Qed.
 
 (* ---- and with the key recomputed per block (the code as found) the full statement is false ---- *)
 Local Open Scope positive_scope.
-Definition wit_app : appname := [5%positive].
+Definition wit_app : appname := [15%positive].
 Definition wit_fa := FD 7 10 false [ET pk_tag].
 Definition wit_fb := FD 8 10 false [ET pk_tag].
 Definition wit_fc := FD 9 11 false [].
-Definition wit_joined : list block := [B wit_app None [] [MT true 6 [] [wit_fa; wit_fb; wit_fc]]].
+Definition wit_joined : list block := [B wit_app None [] [MT true 16 [] [] [wit_fa; wit_fb; wit_fc]]].
 Definition wit_files : list filedesc :=
-  [(20%positive, ([21%positive], [B wit_app None [] [MT true 6 [] [wit_fa]]]));
-   (21%positive, ([], [B wit_app None [] [MT true 6 [] [wit_fb; wit_fc]]]))].
-
+  [(20%positive, ([21%positive], [B wit_app None [] [MT true 16 [] [] [wit_fa]]]));
+   (21%positive, ([], [B wit_app None [] [MT true 16 [] [] [wit_fb; wit_fc]]]))].
 Local Close Scope positive_scope.
+
+Ltac nodup_names :=
+  repeat (apply NoDup_cons; split; [let H := fresh in intros H; repeat (apply elem_of_cons in H; destruct H as [H|H]; [discriminate|]); apply elem_of_nil in H; exact H|]);
+  apply NoDup_nil_2.
 
 Lemma wit_hyps :
   NoDup (map fst wit_files) /\ all_reached wit_files 20%positive = true /\
   wf (bcontent wit_joined) /\ refines (bcontent wit_joined) (bcontent (all_blocks wit_files)).
 Proof.
   split; [|split; [|split]].
-  - cbn. apply NoDup_cons. split; [|apply NoDup_singleton]. intros H. apply elem_of_list_singleton in H. discriminate.
+  - cbn. nodup_names.
   - reflexivity.
   - split.
     + constructor; [|constructor; [constructor|constructor]]. constructor; [|constructor]. left. discriminate.
-    + constructor; [exact I|]. constructor; [|constructor]. cbn.
-      apply NoDup_cons. split; [intros H; apply elem_of_cons in H; destruct H as [H|H]; [discriminate|apply elem_of_list_singleton in H; discriminate]|].
-      apply NoDup_cons. split; [intros H; apply elem_of_list_singleton in H; discriminate|apply NoDup_singleton].
+    + constructor; [exact I|]. constructor; [|constructor]. cbn. split; [nodup_names|split; [nodup_names|intros x []]].
   - cbn. (* [H; T(a,b,c)]  ~>  [H; T(a); H; T(b,c)] *)
     eapply rf_trans; [apply rf_perm, perm_swap|].
-    eapply rf_trans; [apply (rf_split wit_app true 6%positive [] [wit_fa] [wit_fb; wit_fc])|].
+    eapply rf_trans; [apply (rf_split wit_app true 16%positive [] [] [] [wit_fa] [wit_fb; wit_fc])|].
     eapply rf_trans; [apply (rf_reopen wit_app); eexists; split; [left; reflexivity|reflexivity]|].
     apply rf_perm.
     do 2 apply perm_skip. apply perm_swap.
@@ -821,28 +1099,148 @@ Theorem merge_fields_pk_refuted :
   exists files root joined,
     NoDup (map fst files) /\ all_reached files root = true /\
     wf (bcontent joined) /\ refines (bcontent joined) (bcontent (all_blocks files)) /\
-    snd (denote_files PkReplace files root) !! (wit_app, 6%positive) = Some [8%positive] /\
-    snd (denote_blocks PkReplace joined) !! (wit_app, 6%positive) = Some [7%positive; 8%positive] /\
+    snd (denote_files PkReplace files root) !! (wit_app, 16%positive) = Some [8%positive] /\
+    snd (denote_blocks PkReplace joined) !! (wit_app, 16%positive) = Some [7%positive; 8%positive] /\
     ~ Req (denote_files PkReplace files root) (denote_blocks PkReplace joined).
 Proof.
   exists wit_files, 20%positive, wit_joined.
   destruct wit_hyps as (H1 & H2 & H3 & H4). repeat (split; [assumption|]).
-  assert (Ha : snd (denote_files PkReplace wit_files 20%positive) !! (wit_app, 6%positive) = Some [8%positive]) by (vm_compute; reflexivity).
-  assert (Hb : snd (denote_blocks PkReplace wit_joined) !! (wit_app, 6%positive) = Some [7%positive; 8%positive]) by (vm_compute; reflexivity).
+  assert (Ha : snd (denote_files PkReplace wit_files 20%positive) !! (wit_app, 16%positive) = Some [8%positive]) by (vm_compute; reflexivity).
+  assert (Hb : snd (denote_blocks PkReplace wit_joined) !! (wit_app, 16%positive) = Some [7%positive; 8%positive]) by (vm_compute; reflexivity).
   split; [exact Ha|]. split; [exact Hb|].
-  intros [_ H]. destruct (H (wit_app, 6%positive) 7%positive) as [_ H'].
-  assert (Hin : In 7%positive (default [] (snd (denote_blocks PkReplace wit_joined) !! (wit_app, 6%positive))))
-    by (vm_compute; left; reflexivity).
-  apply H' in Hin. vm_compute in Hin. destruct Hin as [Hin|[]]. discriminate.
+  intros [_ H]. specialize (H (wit_app, 16%positive)). unfold oeq in H. vm_compute in H.
+  apply Permutation_length in H. discriminate.
 Qed.
 
 (* non-vacuity of the headline theorem's hypotheses, and the repaired code on the same witness *)
 Example wit_union_agrees :
-  snd (denote_files PkUnion wit_files 20%positive) !! (wit_app, 6%positive) = Some [7%positive; 8%positive]
+  snd (denote_files PkUnion wit_files 20%positive) !! (wit_app, 16%positive) = Some [7%positive; 8%positive]
   /\ Req (denote_files PkUnion wit_files 20%positive) (denote_blocks PkUnion wit_joined).
 Proof.
   split; [vm_compute; reflexivity|].
   destruct wit_hyps as (H1 & H2 & H3 & H4). apply merge_partition_invariant; assumption.
+Qed.
+
+(* ---- a second witness with the member kinds of round 3: an application annotation, a type with an annotation
+   split in two shares, an alias, two mixins, a subscription to an event the publisher declares with `...` ---- *)
+Local Open Scope positive_scope.
+Definition w2_app : appname := [30].
+Definition w2_pub : appname := [31].
+Definition w2_f1 := FD 40 10 false [].
+Definition w2_f2 := FD 41 10 true [EN 50 51].
+Definition w2_anno : anno := (56, VA [57; 58]).
+Definition w2_joined : list block :=
+  [B w2_app (Some 32) [ET 33]
+     [MA (52, VS 53); MT false 34 [EN 54 55] [w2_anno] [w2_f1; w2_f2]; MAl 35 [] [] 10; MX 36; MX 37;
+      MS 38 w2_pub 39 [] [] [SA 60]];
+   B w2_pub None [] [MV 39 [] []]].
+Definition w2_files : list filedesc :=
+  [(20, ([22; 21], [B w2_app None [] [MT false 34 [] [w2_anno] [w2_f2]; MX 37];
+                    B w2_pub None [] [MV 39 [] []]]));
+   (21, ([], [B w2_app (Some 32) [ET 33] [MX 36; MT false 34 [EN 54 55] [] [w2_f1]; MA (52, VS 53)]]));
+   (22, ([21], [B w2_app None [] [MS 38 w2_pub 39 [] [] [SA 60]; MAl 35 [] [] 10]]))].
+Local Close Scope positive_scope.
+
+Ltac find_split a r k :=
+  lazymatch r with
+  | a :: ?t => k (@nil xatom) t
+  | ?h :: ?t => find_split a t ltac:(fun l1 l2 => k (h :: l1) l2)
+  end.
+Ltac perm_solve :=
+  lazymatch goal with
+  | |- Permutation [] [] => apply perm_nil
+  | |- Permutation (?a :: ?l) ?r =>
+      find_split a r ltac:(fun l1 l2 => apply (Permutation_cons_app l1 l2 a); cbn [Datatypes.app]; perm_solve)
+  end.
+Ltac indep_one :=
+  first [ left; discriminate
+        | right; cbn; first [ tauto | reflexivity
+                            | repeat split; try reflexivity; try (let H := fresh in intros [H|[]]; discriminate H) ] ].
+Ltac forall_indep := repeat (lazymatch goal with |- Forall _ (_ :: _) => constructor; [indep_one|] end); constructor.
+Ltac pairwise_all := repeat (lazymatch goal with |- pairwise _ (_ :: _) => constructor; [forall_indep|] end); constructor.
+
+Lemma w2_hyps :
+  NoDup (map fst w2_files) /\ all_reached w2_files 20%positive = true /\
+  wf (bcontent w2_joined) /\ refines (bcontent w2_joined) (bcontent (all_blocks w2_files)).
+Proof.
+  split; [|split; [|split]].
+  - cbn. nodup_names.
+  - reflexivity.
+  - split.
+    + cbn. pairwise_all.
+    + cbn. repeat (lazymatch goal with |- Forall _ (_ :: _) => constructor; [first [exact I|cbn]|] end); [|constructor].
+      split; [nodup_names|split; [nodup_names|]]. intros x [<-|[]] [H|[]]; discriminate.
+  - cbn.
+    eapply rf_trans; [apply rf_perm; apply (Permutation_sym (Permutation_middle [_; _] _ _))|]. cbn [Datatypes.app].
+    eapply rf_trans; [apply (rf_split w2_app false 34%positive [EN 54%positive 55%positive] [] [w2_anno] [w2_f1] [w2_f2])|].
+    eapply rf_trans; [apply (rf_reopen w2_app); eexists; split; [left; reflexivity|reflexivity]|].
+    eapply rf_trans; [apply (rf_reopen w2_app); eexists; split; [left; reflexivity|reflexivity]|].
+    apply rf_perm. perm_solve.
+Qed.
+
+Example w2_agrees :
+  Req (denote_files PkUnion w2_files 20%positive) (denote_blocks PkUnion w2_joined)
+  /\ snd (denote_blocks PkUnion w2_joined) !! (w2_app, mixin_key) = Some [36%positive; 37%positive]
+  /\ snd (denote_files PkUnion w2_files 20%positive) !! (w2_app, mixin_key) = Some [37%positive; 36%positive].
+Proof.
+  split; [|split; vm_compute; reflexivity].
+  destruct w2_hyps as (H1 & H2 & H3 & H4). apply merge_partition_invariant; assumption.
+Qed.
+
+(* ---- the side conditions are needed: a name set twice (an annotation, a type declared again, a field declared
+   again, an array attribute in a header and in an annotation) and two subscribers of one event make the result
+   depend on the order of the blocks ---- *)
+Local Open Scope positive_scope.
+Definition r_app : appname := [30].
+Definition r_anno1 := [B r_app None [] [MA (52, VS 53)]].
+Definition r_anno2 := [B r_app None [] [MA (52, VS 54)]].
+Definition r_alias1 := [B r_app None [] [MAl 35 [] [] 10]].
+Definition r_alias2 := [B r_app None [] [MAl 35 [] [] 11]].
+Definition r_field1 := [B r_app None [] [MT false 34 [] [] [FD 40 10 false []]]].
+Definition r_field2 := [B r_app None [] [MT false 34 [] [] [FD 40 11 false []]]].
+Definition r_arr1 := [B r_app None [EA 52 [57]] [MW]].
+Definition r_arr2 := [B r_app None [] [MA (52, VA [58])]].
+Definition r_sub1 := [B [61] None [] [MS 38 [31] 39 [] [] []]].
+Definition r_sub2 := [B [62] None [] [MS 38 [31] 39 [] [] []]].
+Local Close Scope positive_scope.
+
+Definition app_attr (s : state) (an : appname) (k : name) : option attrv := a_attrs (cur_app (fst s) an) !! k.
+Definition type_at (s : state) (an : appname) (n : name) : option typeent := a_types (cur_app (fst s) an) !! n.
+Definition field_ty (s : state) (an : appname) (n f : name) : option name :=
+  match type_at s an n with Some (TRec _ _ fs) => f_ty <$> fs !! f | _ => None end.
+Definition ep_stmts (s : state) (an : appname) (k : epkey) : option (list stmt) := e_stmts <$> a_eps (cur_app (fst s) an) !! k.
+
+Theorem merge_redeclared_refuted :
+  let d := denote_blocks PkUnion in
+  (app_attr (d (r_anno1 ++ r_anno2)) r_app 52%positive = Some (VS 53%positive) /\
+   app_attr (d (r_anno2 ++ r_anno1)) r_app 52%positive = Some (VS 54%positive)) /\
+  (type_at (d (r_alias1 ++ r_alias2)) r_app 35%positive = Some (TAlias ∅ 11%positive) /\
+   type_at (d (r_alias2 ++ r_alias1)) r_app 35%positive = Some (TAlias ∅ 10%positive)) /\
+  (field_ty (d (r_field1 ++ r_field2)) r_app 34%positive 40%positive = Some 11%positive /\
+   field_ty (d (r_field2 ++ r_field1)) r_app 34%positive 40%positive = Some 10%positive) /\
+  (app_attr (d (r_arr1 ++ r_arr2)) r_app 52%positive = Some (VA [57%positive]) /\
+   app_attr (d (r_arr2 ++ r_arr1)) r_app 52%positive = Some (VA [58%positive; 57%positive])) /\
+  (ep_stmts (d (r_sub1 ++ r_sub2)) [31%positive] (None, [39%positive])
+     = Some [SC [61%positive] 38%positive; SC [62%positive] 38%positive] /\
+   ep_stmts (d (r_sub2 ++ r_sub1)) [31%positive] (None, [39%positive])
+     = Some [SC [62%positive] 38%positive; SC [61%positive] 38%positive]).
+Proof. cbv zeta. repeat split; vm_compute; reflexivity. Qed.
+
+(* in particular the compiled modules differ *)
+Corollary merge_redeclared_modules_differ :
+  fst (denote_blocks PkUnion (r_anno1 ++ r_anno2)) <> fst (denote_blocks PkUnion (r_anno2 ++ r_anno1)) /\
+  fst (denote_blocks PkUnion (r_alias1 ++ r_alias2)) <> fst (denote_blocks PkUnion (r_alias2 ++ r_alias1)) /\
+  fst (denote_blocks PkUnion (r_field1 ++ r_field2)) <> fst (denote_blocks PkUnion (r_field2 ++ r_field1)) /\
+  fst (denote_blocks PkUnion (r_arr1 ++ r_arr2)) <> fst (denote_blocks PkUnion (r_arr2 ++ r_arr1)) /\
+  fst (denote_blocks PkUnion (r_sub1 ++ r_sub2)) <> fst (denote_blocks PkUnion (r_sub2 ++ r_sub1)).
+Proof.
+  destruct merge_redeclared_refuted as ((A1 & A2) & (B1 & B2) & (C1 & C2) & (D1 & D2) & (E1 & E2)).
+  repeat split; intros H.
+  - unfold app_attr in A1, A2. rewrite H in A1. rewrite A1 in A2. discriminate.
+  - unfold type_at in B1, B2. rewrite H in B1. rewrite B1 in B2. discriminate.
+  - unfold field_ty, type_at in C1, C2. rewrite H in C1. rewrite C1 in C2. discriminate.
+  - unfold app_attr in D1, D2. rewrite H in D1. rewrite D1 in D2. discriminate.
+  - unfold ep_stmts in E1, E2. rewrite H in E1. rewrite E1 in E2. discriminate.
 Qed.
 
 (* ------------------------------------------------------------------------------------------------ *)
@@ -860,9 +1258,10 @@ Definition keeps_op (o : cellop) : Prop :=
 
 Lemma keeps_x mode x : keeps_op (x_op mode x).
 Proof.
-  destruct x as [| an table n a fs | an n a items | | |? [[? ?] ?]|]; cbn; try exact I; try (intros; eexists; reflexivity).
+  destruct x as [| | an table n a annos fs | an n t | | |? [[? ?] ?]| | | |]; cbn; try exact I; try (intros; eexists; reflexivity).
   - intros t p _. unfold type_g. destruct (default (TRec table ∅ ∅) t); eexists; reflexivity.
-  - intros t p Ht. destruct items; [exact Ht|eexists; reflexivity].
+  - intros t0 p Ht. unfold repl_g. destruct t; [eexists; reflexivity|exact Ht].
+  - intros t0 p Ht. exact Ht.
 Qed.
 
 Lemma xstep_keeps mode s x an :
@@ -910,71 +1309,16 @@ Proof.
 Qed.
 
 (* ------------------------------------------------------------------------------------------------ *)
-(* 9. key lists are duplicate-free under PkUnion, so "equal as sets" is "equal up to order"          *)
-Definition pk_inv (s : state) : Prop := forall k l, snd s !! k = Some l -> NoDup l.
-
-Lemma pk_union_nodup new : forall old, NoDup old -> NoDup (pk_union old new).
-Proof.
-  induction new as [|x new IH]; intros old H; [exact H|].
-  unfold pk_union in *. cbn. apply IH. unfold pk_add. destruct (in_names x old) eqn:E; [exact H|].
-  apply NoDup_app. split; [exact H|]. split; [|apply NoDup_singleton].
-  intros y Hy Hx. apply elem_of_list_singleton in Hx. subst y.
-  apply elem_of_list_In, in_names_In in Hy. congruence.
-Qed.
-
-Lemma xstep_pk_inv s x : pk_inv s -> pk_inv (xstep PkUnion s x).
-Proof.
-  destruct s as [m p]. intros Hinv.
-  assert (Hd : forall k, NoDup (default [] (p !! k))).
-  { intros k. destruct (p !! k) eqn:E; [exact (Hinv k _ E)|apply NoDup_nil_2]. }
-  unfold xstep, apply_op.
-  destruct x as [| an table n a fs | an n a items | | |? [[? ?] ?]|]; cbn [x_app x_op fst snd]; try exact Hinv.
-  - intros k l; cbn [snd]. destruct (decide (k = (an, n))) as [->|Hne].
-    + rewrite lookup_partial_alter. unfold type_g.
-      destruct (default (TRec table ∅ ∅) (a_types (cur_app m an) !! n)) as [rel a0 fs0|a0 its]; cbn [snd]; [|apply Hinv].
-      destruct rel; [|apply Hinv].
-      unfold pk_update. destruct (pk_union (default [] (p !! (an, n))) _) eqn:E; [apply Hinv|].
-      intros [= <-]. rewrite <- E. apply pk_union_nodup, Hd.
-    + rewrite lookup_partial_alter_ne by congruence. apply Hinv.
-  - intros k l; cbn [snd]. destruct (decide (k = (an, n))) as [->|Hne].
-    + rewrite lookup_partial_alter. destruct items; cbn [snd]; [apply Hinv|discriminate].
-    + rewrite lookup_partial_alter_ne by congruence. apply Hinv.
-Qed.
-
-Lemma fold_pk_inv l : forall s, pk_inv s -> pk_inv (fold_left (xstep PkUnion) l s).
-Proof. induction l as [|x l IH]; intros s H; cbn [fold_left]; [exact H|]. apply IH, xstep_pk_inv, H. Qed.
-
-Lemma denote_blocks_pk_inv bs : pk_inv (denote_blocks PkUnion bs).
-Proof. rewrite denote_blocks_content. apply fold_pk_inv. intros k l H. cbn [snd] in H. rewrite lookup_empty in H. discriminate. Qed.
-
-Definition key_of (s : state) (k : appname * name) : list name := default [] (snd s !! k).
-
-Theorem merge_partition_invariant_perm files root joined :
-  NoDup (map fst files) -> all_reached files root = true ->
-  wf (bcontent joined) -> refines (bcontent joined) (bcontent (all_blocks files)) ->
-  fst (denote_files PkUnion files root) = fst (denote_blocks PkUnion joined) /\
-  forall k, Permutation (key_of (denote_files PkUnion files root) k) (key_of (denote_blocks PkUnion joined) k).
-Proof.
-  intros Hnd Hall Hwf Href.
-  destruct (merge_partition_invariant files root joined Hnd Hall Hwf Href) as [H1 H2].
-  split; [exact H1|]. intros k. unfold key_of.
-  assert (Hn : forall s, pk_inv s -> NoDup (default [] (snd s !! k))).
-  { intros s Hs. destruct (snd s !! k) eqn:E; [exact (Hs k _ E)|apply NoDup_nil_2]. }
-  apply NoDup_Permutation.
-  - apply Hn. unfold denote_files. apply denote_blocks_pk_inv.
-  - apply Hn, denote_blocks_pk_inv.
-  - intros x. rewrite !elem_of_list_In. apply H2.
-Qed.
-
-(* ------------------------------------------------------------------------------------------------ *)
-(* 10. order-preserving splits: the key ORDER is the joined form's ("as if declared in one block")   *)
+(* 9. order-preserving splits: lists that follow the declaration order keep the joined form's order  *)
 (* `orefines` never exchanges two declarations of the same cell: a type may be cut in two consecutive shares
    (the later share comes later), a bare re-opening header may appear before a declaration of its app, and two
-   neighbouring declarations of DIFFERENT cells may change places. *)
+   neighbouring declarations of DIFFERENT cells may change places.  No well-formedness is asked: names set
+   twice, types declared again, several subscribers of one event are all allowed. *)
 Inductive orefines : list xatom -> list xatom -> Prop :=
 | or_refl l : orefines l l
-| or_split l1 l2 an t n a fs1 fs2 : disjoint_names (names fs1) (names fs2) ->
-    orefines (l1 ++ XType an t n a (fs1 ++ fs2) :: l2) (l1 ++ XType an t n a fs1 :: XType an t n [] fs2 :: l2)
+| or_split l1 l2 an t n a an1 an2 fs1 fs2 : disjoint_names (names fs1) (names fs2) ->
+    orefines (l1 ++ XType an t n a (an1 ++ an2) (fs1 ++ fs2) :: l2)
+             (l1 ++ XType an t n a an1 fs1 :: XType an t n [] an2 fs2 :: l2)
 | or_reopen l1 l2 an : (exists x, In x l2 /\ x_app x = an) -> orefines (l1 ++ l2) (l1 ++ XHead an None [] :: l2)
 | or_swap l1 l2 x y : x_cell x <> x_cell y -> orefines (l1 ++ x :: y :: l2) (l1 ++ y :: x :: l2)
 | or_trans l1 l2 l3 : orefines l1 l2 -> orefines l2 l3 -> orefines l1 l3.
@@ -982,12 +1326,12 @@ Inductive orefines : list xatom -> list xatom -> Prop :=
 Theorem orefines_sound l l' : orefines l l' ->
   forall s, fold_left (xstep PkUnion) l s = fold_left (xstep PkUnion) l' s.
 Proof.
-  induction 1 as [l|l1 l2 an t n a fs1 fs2 Hd|l1 l2 an Hx|l1 l2 x y Hc|l1 l2 l3 _ IH1 _ IH2]; intros s.
+  induction 1 as [l|l1 l2 an t n a an1 an2 fs1 fs2 Hd|l1 l2 an Hx|l1 l2 x y Hc|l1 l2 l3 _ IH1 _ IH2]; intros s.
   - reflexivity.
   - rewrite !fold_left_app. cbn [fold_left]. f_equal.
     unfold xstep; cbn [x_app x_op]. rewrite apply_seq_type.
     generalize (fold_left (fun s x => apply_op (x_app x) (x_op PkUnion x) s) l1 s). intros [m p].
-    unfold apply_op; cbn [fst snd]. rewrite (type_g_fusion t a fs1 fs2 Hd). reflexivity.
+    unfold apply_op; cbn [fst snd]. rewrite (type_g_fusion t a an1 an2 fs1 fs2 Hd). reflexivity.
   - rewrite !fold_left_app. symmetry. apply touch_redundant, Hx.
   - rewrite !fold_left_app. cbn [fold_left]. f_equal. unfold xstep.
     apply apply_comm_ne. rewrite !op_cell_x. unfold x_cell in Hc. congruence.
@@ -995,7 +1339,7 @@ Proof.
 Qed.
 
 (* the blocks of the files, in the order the parser walks them, against the joined form: EXACT equality,
-   key lists included *)
+   key lists and mixin lists included *)
 Theorem merge_pk_order_preserved files root joined :
   orefines (bcontent joined) (bcontent (blocks_in_order files (flatten_order files root))) ->
   denote_files PkUnion files root = denote_blocks PkUnion joined.
@@ -1007,9 +1351,22 @@ Lemma wit_ordered :
   orefines (bcontent wit_joined) (bcontent (blocks_in_order wit_files (flatten_order wit_files 20%positive))).
 Proof.
   vm_compute flatten_order. cbn.
-  eapply or_trans; [apply (or_split [XHead wit_app None []] [] wit_app true 6%positive [] [wit_fa] [wit_fb; wit_fc])|].
+  eapply or_trans; [apply (or_split [XHead wit_app None []] [] wit_app true 16%positive [] [] [] [wit_fa] [wit_fb; wit_fc])|].
   - intros x [<-|[]] [H|[H|[]]]; discriminate.
-  - apply (or_reopen [XHead wit_app None []; XType wit_app true 6%positive [] [wit_fa]]
-             [XType wit_app true 6%positive [] [wit_fb; wit_fc]] wit_app).
+  - apply (or_reopen [XHead wit_app None []; XType wit_app true 16%positive [] [] [wit_fa]]
+             [XType wit_app true 16%positive [] [] [wit_fb; wit_fc]] wit_app).
     eexists; split; [left; reflexivity|reflexivity].
+Qed.
+
+(* an order-preserving layout in which a name is set twice: the annotation @52 in two blocks of two files *)
+Definition wo_joined : list block := [B r_app None [] [MA (52%positive, VS 53%positive); MA (52%positive, VS 54%positive)]].
+Definition wo_files : list filedesc :=
+  [(20%positive, ([21%positive], [B r_app None [] [MA (52%positive, VS 53%positive)]]));
+   (21%positive, ([], [B r_app None [] [MA (52%positive, VS 54%positive)]]))].
+Lemma wo_ordered :
+  orefines (bcontent wo_joined) (bcontent (blocks_in_order wo_files (flatten_order wo_files 20%positive))).
+Proof.
+  vm_compute flatten_order. cbn.
+  apply (or_reopen [XHead r_app None []; XAnno r_app (52%positive, VS 53%positive)] [XAnno r_app (52%positive, VS 54%positive)] r_app).
+  eexists; split; [left; reflexivity|reflexivity].
 Qed.
